@@ -102,4 +102,15 @@ theorem Di.connect_disconnect (s : Store K E) (h : Mirror s) (u v : K) (e : E)
 /-- non-vacuity: the hypothesis holds for a self-loop target on a reachable store with other edges -/
 example : vals ((Di.run [Op.connect 0 1 1, .connect 1 0 2] : Store Nat Nat).get 0).out 0 = [] := by decide
 
+/-- the same for the undirected flavours, a self-loop included: connecting `u`-`v` where `u` lists no edge to `v`
+    in either orientation and disconnecting again from the same endpoint returns the value and restores every list -/
+theorem Un.connect_disconnect (s : Store K E) (h : Mirror s) (u v : K) (e : E)
+    (hn : vals (unAdj s u) v = []) :
+    (Un.disconnect (connect s u v e) u v).2 = .val e ∧
+    ∀ w, ((Un.disconnect (connect s u v e) u v).1.get w).out = (s.get w).out ∧
+         ((Un.disconnect (connect s u v e) u v).1.get w).inn = (s.get w).inn :=
+  Un.connect_disconnect' s h u v e hn
+
+example : vals (unAdj (Un.run [Op.connect 0 1 1, .connect 2 0 2] : Store Nat Nat) 0) 0 = [] := by decide
+
 end G
